@@ -1,6 +1,8 @@
 import FxVerif.Model.C10
 import FxVerif.Model.C09
 import FxVerif.Proofs.C10
+import FxVerif.Model.C10Tok
+import FxVerif.Proofs.C10Tok
 /-!
 # C10 — precompiles act only for their direct caller, only in a writable call context, only when enabled
 
@@ -856,5 +858,126 @@ theorem nested_static_context_can_write :
   let hd (k : FxVerif.Model.C09.Kind) : CallHdr (List Nat) :=
     { callc := 10, cap := 500000, stip := 0, kind := k, xfer := none, funded := fun _ => true, swallow := false, pOk := 5, pFail := 5 }
   refine ⟨[.call (hd .staticcall) [Prog.preA (hd .call) 100 writer]], ⟨fun _ => 0, [], []⟩, ⟨_, _, rfl, rfl⟩, ?_, ?_⟩ <;> decide
+
+/-! ## round 3 — the ERC-20 leg of the payable crosschain methods (`crossChain` / `increaseBridgeFee` with a token), over
+regenerated code: `Gen.C10Tok.erc20Leg` = `handlerERC20Token` with `convertERC20` inlined, interpreted by `Model/C10Tok.lean` -/
+section Tok
+open FxVerif.Gen.C10Tok FxVerif.Model.C10Tok FxVerif.Proofs.C10Tok
+
+/-- every `Run` that calls `handlerERC20Token` hands it `contract.Caller()` as the account whose tokens move (two sites:
+`crossChain`, `increaseBridgeFee`); with `precompile_frame_is_direct_caller` that is the DIRECT caller of the precompile -/
+theorem erc20_leg_sites_use_caller : erc20LegSites.all (fun s => s.2 == "caller") = true ∧ erc20LegSites.length = 2 := by decide
+
+/-- the regenerated statement list, run on ANY token world, amount, pair kind (coin-backed / FX / contract-owned / neither)
+and role assignment, computes exactly the closed form `legSpec`: ERC-20 `transferFrom(sender → erc20 module)` issued by
+the precompile address, the conversion of that pair kind, the payout of the coins to `sender`; and the translator
+understood every statement (the result is never `none`) -/
+theorem erc20_leg_refines_spec (pk : PairKind) (r : Roles) (a : Nat) (w : TW) :
+    runOps pk r a erc20Leg w = some (legSpec pk r a w) := erc20_leg_program_spec pk r a w
+
+/-- tokens clause of C10, first sentence: whatever the leg does, an account that is not `sender` (and not one of the two
+system accounts the conversion books through: the erc20 module, the token contract's own coin account) keeps its
+ERC-20 balance, its coins and EVERY ERC-20 allowance it granted — in particular the allowance it may itself have granted to
+the precompile address earlier cannot be spent by somebody else's call -/
+theorem erc20_leg_only_sender_pays (pk : PairKind) (r : Roles) (a : Nat) (w w' : TW)
+    (h : runOps pk r a erc20Leg w = some (some w')) (x : Nat) (hx : x ≠ r.sender ∧ x ≠ r.mod ∧ x ≠ r.tokC) :
+    w'.tok x = w.tok x ∧ w'.coin x = w.coin x ∧ ∀ y, w'.appr x y = w.appr x y := by
+  rw [erc20_leg_program_spec] at h
+  exact legSpec_same pk r a w w' (by simpa using h) x (by simp [hx.1, hx.2.1, hx.2.2])
+
+
+/-- … and what `sender` loses is exact: `amount` tokens, `amount` of its allowance to the precompile (no other allowance
+of it is touched), and it receives `amount` coins -/
+theorem erc20_leg_exact (pk : PairKind) (r : Roles) (hd : r.distinct) (a : Nat) (w w' : TW)
+    (h : runOps pk r a erc20Leg w = some (some w')) :
+    w'.tok r.sender + a = w.tok r.sender ∧ w'.appr r.sender r.pre + a = w.appr r.sender r.pre ∧
+    w'.coin r.sender = w.coin r.sender + a ∧ ∀ y, y ≠ r.pre → w'.appr r.sender y = w.appr r.sender y := by
+  rw [erc20_leg_program_spec] at h
+  exact legSpec_exact pk r hd a w w' (by simpa using h)
+
+
+/-- without a sufficient ERC-20 allowance from `sender` to the precompile (or a sufficient balance) the handler returns an
+error before anything else: nothing can be taken that was not granted -/
+theorem erc20_leg_needs_allowance (pk : PairKind) (r : Roles) (a : Nat) (w : TW) (h : w.appr r.sender r.pre < a ∨ w.tok r.sender < a) :
+    runOps pk r a erc20Leg w = some none := by
+  rw [erc20_leg_program_spec]
+  simp [legSpec, erc20TransferFrom, h]
+
+
+
+/-- when the leg succeeds, exactly (contract-owned token): iff the sender's allowance to the precompile and its balance
+cover the amount — the handler has no other way to fail, and no other account's state enters the condition -/
+theorem erc20_leg_contract_owned_succeeds_iff (fx : Bool) (r : Roles) (a : Nat) (w : TW) :
+    (∃ w', runOps ⟨false, fx, true⟩ r a erc20Leg w = some (some w')) ↔ (a ≤ w.appr r.sender r.pre ∧ a ≤ w.tok r.sender) := by
+  rw [erc20_leg_program_spec]
+  unfold legSpec erc20TransferFrom bankSend
+  by_cases h : w.appr r.sender r.pre < a ∨ w.tok r.sender < a
+  · simp [h]; omega
+  · simp [h, FxVerif.Model.C10Tok.upd]
+    omega
+
+/-- … and for the coin-backed FX token (WFX): additionally the token contract's own account must hold the backing coins -/
+theorem erc20_leg_fx_succeeds_iff (r : Roles) (hd : r.distinct) (a : Nat) (w : TW) :
+    (∃ w', runOps ⟨true, true, false⟩ r a erc20Leg w = some (some w')) ↔
+      (a ≤ w.appr r.sender r.pre ∧ a ≤ w.tok r.sender ∧ a ≤ w.coin r.tokC) := by
+  obtain ⟨d1, d2, d3, d4, d5, d6⟩ := hd
+  rw [erc20_leg_program_spec]
+  unfold legSpec erc20TransferFrom erc20Burn bankSend
+  by_cases h : w.appr r.sender r.pre < a ∨ w.tok r.sender < a
+  · simp [h]; omega
+  · have d2' : r.mod ≠ r.sender := fun e => d2 e.symm
+    have d6' : r.tokC ≠ r.mod := fun e => d6 e.symm
+    simp [h, FxVerif.Model.C10Tok.upd, d2, d2', d6]
+    have hb : ¬ (w.tok r.mod + a < a) := by omega
+    simp only [hb, ↓reduceIte]
+    by_cases hc : w.coin r.tokC < a
+    · simp [hc]
+    · simp [hc, FxVerif.Model.C10Tok.upd]
+      omega
+example : (⟨1, 7, 8, 9⟩ : Roles).distinct := by simp [Roles.distinct]
+
+/-- `bridgeCall` converts the tokens of its list with keeper power (`EvmToBaseCoin(ctx, token, amount, holder)`: no ERC-20
+allowance is consulted): in the regenerated closure the holder handed to EVERY such call is `contract.Caller()`, and the
+refund address goes to `AddOutgoingBridgeCall` only -/
+theorem bridge_call_token_holder_is_caller :
+    (FxVerif.Gen.C10.closures.filter (fun cl => cl.abiName == "bridgeCall")).all (fun cl =>
+      cl.single && cl.steps.any (fun s => s.callee == "EvmToBaseCoin") &&
+      cl.steps.all (fun s => s.callee != "EvmToBaseCoin" || (s.args.getLast? == some "caller" && s.err == "checked"))) = true ∧
+    (FxVerif.Gen.C10.closures.filter (fun cl => cl.abiName == "bridgeCall")).length = 1 := by decide
+
+/-- HISTORIES of the token leg: over ANY list of such calls by ANY callers with ANY amounts and pair kinds, an account that
+is never the direct caller (and is not one of the two system accounts) keeps its ERC-20 balance, its coins and every
+ERC-20 allowance it granted — however large the allowance it once gave to the precompile -/
+theorem tok_history_noncaller_safe (pre mod tokC : Nat) (ops : List TokOp) (w : TW) (a : Nat)
+    (ha : ∀ o ∈ ops, o.caller ≠ a) (hm : a ≠ mod) (ht : a ≠ tokC) :
+    (runTokH pre mod tokC ops w).tok a = w.tok a ∧ (runTokH pre mod tokC ops w).coin a = w.coin a ∧
+    ∀ y, (runTokH pre mod tokC ops w).appr a y = w.appr a y := by
+  induction ops generalizing w with
+  | nil => exact ⟨rfl, rfl, fun _ => rfl⟩
+  | cons o rest ih =>
+    have hrest : ∀ o' ∈ rest, o'.caller ≠ a := fun o' ho' => ha o' (List.mem_cons_of_mem _ ho')
+    have ho : o.caller ≠ a := ha o (List.mem_cons_self ..)
+    have step : (applyTok pre mod tokC w o).tok a = w.tok a ∧ (applyTok pre mod tokC w o).coin a = w.coin a ∧
+        ∀ y, (applyTok pre mod tokC w o).appr a y = w.appr a y := by
+      unfold applyTok
+      cases h : runOps o.pk ⟨o.caller, pre, mod, tokC⟩ o.amount erc20Leg w with
+      | none => exact ⟨rfl, rfl, fun _ => rfl⟩
+      | some r =>
+        cases r with
+        | none => exact ⟨rfl, rfl, fun _ => rfl⟩
+        | some w' => exact erc20_leg_only_sender_pays o.pk _ o.amount w w' h a ⟨fun e => ho e.symm, hm, ht⟩
+    have := ih (applyTok pre mod tokC w o) hrest
+    simp only [runTokH, List.foldl_cons] at this ⊢
+    exact ⟨this.1.trans step.1, this.2.1.trans step.2.1, fun y => (this.2.2 y).trans (step.2.2 y)⟩
+example : ∀ o ∈ [(⟨⟨false, false, true⟩, 1, 50⟩ : TokOp), ⟨⟨true, true, false⟩, 3, 7⟩], o.caller ≠ 2 := by simp
+
+-- non-vacuity: a contract-owned token, sender 1 holding 100 with 60 approved to the precompile 7, moving 50
+def tokW0 : TW := ⟨fun x => if x = 1 then 100 else 0, fun x y => if x = 1 ∧ y = 7 then 60 else 0, fun _ => 0⟩
+example : (⟨1, 7, 8, 9⟩ : Roles).distinct := by simp [Roles.distinct]
+example : ∃ w', runOps ⟨false, false, true⟩ ⟨1, 7, 8, 9⟩ 50 erc20Leg tokW0 = some (some w') ∧ w'.tok 1 = 50 ∧ w'.appr 1 7 = 10 ∧ w'.coin 1 = 50 :=
+  ⟨_, by rw [erc20_leg_program_spec]; rfl, by decide, by decide, by decide⟩
+example : tokW0.appr 2 7 < 50 ∨ tokW0.tok 2 < 50 := by decide
+
+end Tok
 
 end FxVerif.Props.C10
